@@ -688,8 +688,16 @@ impl<W: Word, B: AsRef<[W]> + AsMut<[W]>> BitFieldSliceMut<W> for BitFieldVec<W,
             return;
         }
         let mask = self.mask();
-        let number_of_words: usize = self.bits.as_ref().len();
+        // Only the words containing elements are involved: the backend might
+        // be larger, and its bits beyond the last element must be preserved
+        let bit_len = self.len() * bit_width;
+        let number_of_words: usize = bit_len.div_ceil(W::BITS);
         let last_word_idx = number_of_words.saturating_sub(1);
+        let last_word_mask = if bit_len % W::BITS == 0 {
+            W::MAX
+        } else {
+            W::MAX >> (W::BITS - bit_len % W::BITS)
+        };
 
         let mut write_buffer: W = W::ZERO;
         let mut read_buffer: W = *self.bits.as_ref().get_unchecked(0);
@@ -717,8 +725,13 @@ impl<W: Word, B: AsRef<[W]> + AsMut<[W]>> BitFieldSliceMut<W> for BitFieldVec<W,
                     }
 
                     let value = read_buffer & mask;
-                    // throw away the bits we just read
-                    read_buffer >>= bit_width;
+                    // throw away the bits we just read (a shift by W::BITS
+                    // would overflow)
+                    read_buffer = if bit_width == W::BITS {
+                        W::ZERO
+                    } else {
+                        read_buffer >> bit_width
+                    };
                     // apply user func
                     let new_value = f(value);
                     // put the new value in the write buffer
@@ -737,8 +750,13 @@ impl<W: Word, B: AsRef<[W]> + AsMut<[W]>> BitFieldSliceMut<W> for BitFieldVec<W,
             // write the last word if we have some bits left
             while bits_in_buffer < buffer_limit {
                 let value = read_buffer & mask;
-                // throw away the bits we just read
-                read_buffer >>= bit_width;
+                // throw away the bits we just read (a shift by W::BITS
+                // would overflow)
+                read_buffer = if bit_width == W::BITS {
+                    W::ZERO
+                } else {
+                    read_buffer >> bit_width
+                };
                 // apply user func
                 let new_value = f(value);
                 // put the new value in the write buffer
@@ -747,7 +765,8 @@ impl<W: Word, B: AsRef<[W]> + AsMut<[W]>> BitFieldSliceMut<W> for BitFieldVec<W,
                 bits_in_buffer += bit_width;
             }
 
-            *self.bits.as_mut().get_unchecked_mut(last_word_idx) = write_buffer;
+            let last_word = self.bits.as_mut().get_unchecked_mut(last_word_idx);
+            *last_word = (*last_word & !last_word_mask) | (write_buffer & last_word_mask);
             return;
         }
 
@@ -822,7 +841,8 @@ impl<W: Word, B: AsRef<[W]> + AsMut<[W]>> BitFieldSliceMut<W> for BitFieldVec<W,
             offset += bit_width;
         }
 
-        *self.bits.as_mut().get_unchecked_mut(last_word_idx) = write_buffer;
+        let last_word = self.bits.as_mut().get_unchecked_mut(last_word_idx);
+        *last_word = (*last_word & !last_word_mask) | (write_buffer & last_word_mask);
     }
 
     type ChunksMut<'a>
